@@ -793,7 +793,8 @@ class C18(Property):
         if kind in ("pf", "pe"):
             return {"kind": kind, "cpus": case["cpus"], "config_cpus": case["config_cpus"], "timeout": case["timeout"],
                     "outcomes": case["outcomes"], "events": case["events"], "impl": impl,
-                    "before": case.get("before", []), "after": case.get("after", [])}
+                    "before": case.get("before", []), "after": case.get("after", []),
+                    "verbose": bool(case.get("verbose", False))}
         if kind == "rpf":
             if "harness_error" in obs:
                 return None
